@@ -120,6 +120,46 @@ func (m *MW) StepFund() {
 	})
 }
 
+// StepMintRace: two or three concurrent mint requests (different outputs) for one paid quote,
+// followed by one more request with fresh outputs. Everything that is signed lands in the purse:
+// the Book counts issuances per quote (C03) and the drain audit the backing (C02).
+func (m *MW) StepMintRace() {
+	mint := m.pickMint()
+	amount := uint64(1 + m.T.Choose("mrace.amt", 64))
+	n := 2 + m.T.Choose("mrace.n", 2)
+	m.rc.Op(fmt.Sprintf("mintrace x%d", n))
+	ks := m.W.ActiveKeyset(mint)
+	var q *MintQuote
+	m.begin()
+	m.rc.S.Run1(m.name("mraceq"), m.W.Ext, func() {
+		q, _ = m.User.ReqMintQuote(mint, amount, false)
+		if q != nil {
+			m.W.LN.PayExternal(q.Hash)
+		}
+	})
+	if q == nil {
+		return
+	}
+	m.begin()
+	for i := 0; i < n; i++ {
+		name := fmt.Sprintf("%s.%d", m.name("mrace"), i)
+		outs := m.W.NewOutputs(Split(amount), ks.ID)
+		m.rc.S.Go(name, m.W.Ext, true, func() {
+			a := NewActor(m.W, name)
+			ps, r := a.Mint(mint, q, outs, "")
+			if r.OK() {
+				m.User.Purse[mint] = append(m.User.Purse[mint], ps...)
+			}
+		})
+	}
+	m.rc.S.Drive(false)
+	m.rc.S.Probe("mint_race_episode")
+	m.begin()
+	m.rc.S.Run1(m.name("mrace.late"), m.W.Ext, func() {
+		m.User.Mint(mint, q, m.W.NewOutputs(Split(amount), ks.ID), "")
+	})
+}
+
 // StepSwap: honest swap at the exact fee boundary; optionally first tries one sat too much (must fail).
 func (m *MW) StepSwap() {
 	mint := m.pickMint()
